@@ -275,6 +275,48 @@ fn handle(req: &Value) -> Value {
             }
             json!({"live": live, "ok": outs})
         }
+        "module_graph" => {
+            // load a module graph: the host supplies the requested sources from a map, in the order asked for or reversed
+            let mut interp = Interpreter::new();
+            let entry = req["entry"].as_str().unwrap_or("/d/main.ts");
+            let modules = req["modules"].as_object().cloned().unwrap_or_default();
+            let reverse = req["order"].as_str() == Some("reverse");
+            let one_at_a_time = req["batch"].as_str() == Some("one");
+            let main_src = modules.get(entry).and_then(|v| v.as_str()).unwrap_or("");
+            let mut rounds = Vec::new();
+            let mut outcome = json!("running");
+            let mut r = interp.prepare(main_src, Some(ModulePath::new(entry)));
+            let mut n = 0u64;
+            loop {
+                n += 1;
+                if n > 2_000_000 { outcome = json!({"error": "step budget"}); break; }
+                match r {
+                    Ok(StepResult::Continue) => { r = interp.step(); }
+                    Ok(StepResult::NeedImports(reqs)) => {
+                        rounds.push(json!(reqs.iter().map(|x| json!({"specifier": x.specifier, "resolved": x.resolved_path.as_str(),
+                            "importer": x.importer.as_ref().map(|p| p.as_str().to_string())})).collect::<Vec<Value>>()));
+                        if reqs.is_empty() || rounds.len() > 40 { outcome = json!({"error": "empty or endless NeedImports"}); break; }
+                        let mut list: Vec<_> = reqs.into_iter().collect();
+                        if reverse { list.reverse(); }
+                        if one_at_a_time { list.truncate(1); }
+                        let mut failed = false;
+                        for rq in list {
+                            let key = rq.resolved_path.as_str().to_string();
+                            match modules.get(&key).and_then(|v| v.as_str()) {
+                                Some(src) => { if let Err(e) = interp.provide_module(rq.resolved_path, src) { outcome = json!({"provide_error": format!("{}", e)}); failed = true; break; } }
+                                None => { outcome = json!({"missing_module": key}); failed = true; break; }
+                            }
+                        }
+                        if failed { break; }
+                        r = interp.step();
+                    }
+                    Ok(StepResult::Complete(v)) => { outcome = json!({"complete": js_to_json(v.value())}); break; }
+                    Ok(_) => { outcome = json!("other"); break; }
+                    Err(e) => { outcome = json!({"error": format!("{}", e)}); break; }
+                }
+            }
+            json!({"rounds": rounds, "outcome": outcome})
+        }
         "module_seq" => {
             // first: a main module whose dependency is provided by the host; then an observer script on the SAME interpreter
             let mut interp = Interpreter::new();
